@@ -25,7 +25,11 @@ HdrQuot  == <<LBR, 97, SP, DQ, 66, DQ, RBR>>                   \* [a "B"]
 HdrLeg   == <<LBR, 97, DOT, 66, RBR>>                          \* [a.B]
 HdrEsc   == <<LBR, 97, SP, DQ, 120, BSL, DQ, BSL, BSL, 121, DQ, RBR>>   \* [a "x\"\\y"]
 HdrEscX  == <<LBR, 97, SP, DQ, 120, BSL, 121, DQ, RBR>>        \* [a "x\y"]
-StrQuick == { BOM, HdrA, HdrQuot, HdrLeg, HdrEsc, HdrEscX, <<107>>, <<EQ>>, <<118>>, <<SP>>, <<SEMI, 99>>, <<NL>>, <<CR, NL>> }
+\* the only byte needing an escape is the first / the only / the last one of the name
+HdrEscFirst == <<LBR, 97, SP, DQ, BSL, BSL, 115, DQ, RBR>>     \* [a "\\s"]
+HdrEscOnly  == <<LBR, 97, SP, DQ, BSL, DQ, DQ, RBR>>           \* [a "\""]
+HdrEscLast  == <<LBR, 97, SP, DQ, 115, BSL, BSL, DQ, RBR>>     \* [a "s\\"]
+StrQuick == { BOM, HdrA, HdrQuot, HdrLeg, HdrEsc, HdrEscX, HdrEscFirst, HdrEscOnly, HdrEscLast, <<107>>, <<EQ>>, <<118>>, <<SP>>, <<SEMI, 99>>, <<NL>>, <<CR, NL>> }
 \*                                                          k        =       v        space   ;c
 StrWide == StrQuick \cup { <<LBR>>, <<RBR>>, <<DQ>>, <<LBR, 65, RBR>>, <<LBR, 97, SP, SP, DQ, 98, DQ, RBR>>,
                            <<LBR, 97, TAB, DQ, 98, DQ, RBR>>, <<LBR, 97, DOT, 98, DOT, 67, RBR>>, <<LBR, 97, DASH, 49, RBR>>,
